@@ -285,10 +285,10 @@ def read_file(p):
 class Exec:
     """runs `kinds` callers on a fresh cache under a chooser; records everything the comparison and the oracle need"""
 
-    def __init__(self, root, kinds, pre, stale):
+    def __init__(self, root, kinds, pre, stale, corrupt=False):
         import taskchain.cache as tc
         self.tc = tc
-        self.kinds, self.pre, self.stale = kinds, pre, stale
+        self.kinds, self.pre, self.stale, self.corrupt = kinds, pre, stale, corrupt
         self.root = root
         # fresh state: the directory is reused, the files are removed
         self.cache = tc.JsonCache(root)
@@ -305,6 +305,10 @@ class Exec:
             self.produced.append(0)
         if stale:
             with _orig['open'](self.tmp, 'w') as f:
+                f.write('{"key":"k')
+        if corrupt and not pre:
+            # an unreadable entry at the final path: what a crashed in-place writer of an older release left behind
+            with _orig['open'](self.final, 'w') as f:
                 f.write('{"key":"k')
         self.ncomp = [0] * len(kinds)
 
@@ -402,7 +406,7 @@ def explore(make_exec, depth_limit=None, max_runs=None):
 # ------------------------------------------------------------------------------------------- comparison + oracle
 
 def compare(ctx, cfg, sched, tr, mo):
-    case = {'kinds': cfg['kinds'], 'pre': cfg['pre'], 'stale': cfg['stale'], 'sched': sched}
+    case = {'kinds': cfg['kinds'], 'pre': cfg['pre'], 'stale': cfg['stale'], 'corrupt': cfg.get('corrupt', False), 'sched': sched}
     impl = {'labels': [s[1] for s in tr['steps']], 'enabled': [s[2] for s in tr['steps']], 'res': tr['res'], 'ncomp': tr['ncomp'],
             'file': tr['file'], 'tmp': tr['tmp'], 'lock': tr['lock'], 'status': tr['status']}
     if 'err' in mo:
@@ -419,7 +423,7 @@ def compare(ctx, cfg, sched, tr, mo):
 
 def oracle(ctx, cfg, sched, tr):
     """the property on the real code, from what the harness itself observed (no model involved)"""
-    case = {'kinds': cfg['kinds'], 'pre': cfg['pre'], 'stale': cfg['stale'], 'sched': sched}
+    case = {'kinds': cfg['kinds'], 'pre': cfg['pre'], 'stale': cfg['stale'], 'corrupt': cfg.get('corrupt', False), 'sched': sched}
     if tr['status'] != 'ok':
         ctx.fail(f'callers never finish ({tr["status"]})', case, {'res': tr['res']})
         return
@@ -444,7 +448,9 @@ def oracle(ctx, cfg, sched, tr):
         if st.get('late') and kind in ('goc', 'gocR') and tr['ncomp'][i] > 0:
             ctx.fail('a call that started after another call had returned a value recomputed without force', case, {'caller': i})
     f = tr['file']
-    if f == 'torn' or (isinstance(f, dict) and f['entry'] not in produced):
+    if f == 'torn' and cfg.get('corrupt') and not produced:
+        pass        # the unreadable entry that was there before any call, and no computation has completed: nothing could replace it
+    elif f == 'torn' or (isinstance(f, dict) and f['entry'] not in produced):
         ctx.fail('at quiescence the stored entry is not a complete entry of a finished computation', case, {'file': f})
     if f == 'absent' and any(isinstance(r, dict) and 'val' in r for r in tr['res']):
         ctx.fail('a call returned a value but nothing is stored at quiescence', case, {'file': f})
@@ -452,7 +458,7 @@ def oracle(ctx, cfg, sched, tr):
 
 def model_req(cfg, sched):
     return {'m': 'conc', 'op': 'run', 'mode': 'atomic', 'kinds': [KINDS[k] for k in cfg['kinds']], 'pre': cfg['pre'],
-            'stale': cfg['stale'], 'sched': sched}
+            'stale': cfg['stale'], 'corrupt': cfg.get('corrupt', False), 'sched': sched}
 
 
 def check_batch(ctx, batch):
@@ -462,7 +468,7 @@ def check_batch(ctx, batch):
         nontrivial = 'compute' in labels or 'openr' in labels
         ctx.case({'kinds': cfg['kinds'], 'pre': cfg['pre'], 'stale': cfg['stale'], 'sched': sched}, nontrivial=nontrivial)
         ctx.count(f'callers={min(len(cfg["kinds"]), 4)}{"+" if len(cfg["kinds"]) >= 4 else ""}')
-        ctx.count('pre' if cfg['pre'] else 'empty')
+        ctx.count('pre' if cfg['pre'] else ('corrupt-entry' if cfg.get('corrupt') else 'empty'))
         ncomp = sum(tr['ncomp'])
         ctx.count(f'computations={min(ncomp, 3)}')
         if any(st.get('late') for st in tr['started'].values()):
@@ -494,6 +500,9 @@ def configs2():
                 out.append({'kinds': [ks[a], ks[b]], 'pre': pre, 'stale': False})
     out.append({'kinds': ['goc', 'goc'], 'pre': False, 'stale': True})
     out.append({'kinds': ['get', 'gocF'], 'pre': True, 'stale': True})
+    # an unreadable entry lying at the final path
+    out.append({'kinds': ['goc', 'goc'], 'pre': False, 'stale': False, 'corrupt': True})
+    out.append({'kinds': ['get', 'goc'], 'pre': False, 'stale': False, 'corrupt': True})
     return out
 
 
@@ -518,7 +527,7 @@ def run(ctx, search=False):
 
         def explore_all(cfg, cap):
             k = 0
-            for sched, tr in explore(lambda: Exec(root, cfg['kinds'], cfg['pre'], cfg['stale']), max_runs=cap):
+            for sched, tr in explore(lambda: Exec(root, cfg['kinds'], cfg['pre'], cfg['stale'], cfg.get('corrupt', False)), max_runs=cap):
                 batch.append((cfg, sched, tr))
                 flush()
                 k += 1
@@ -543,6 +552,10 @@ def run(ctx, search=False):
                 cfg = {'kinds': list(kinds), 'pre': pre, 'stale': False}
                 if not enough():
                     explore_all(cfg, 5000)
+        # three callers over an unreadable entry: two that find it, one more
+        for kinds in ((['goc', 'goc', 'get'], ['goc', 'get', 'get']) if ctx.thorough else ()):
+            if not enough():
+                explore_all({'kinds': kinds, 'pre': False, 'stale': False, 'corrupt': True}, 200000)
         flush(True)
         ctx.notes['exhaustive_schedules'] = ctx.evaluations
         # ---- seeded random schedules: 3 callers (all kinds), thorough also 4 and 5 callers
@@ -556,6 +569,7 @@ def run(ctx, search=False):
             if rng.random() < 0.5:
                 kinds[rng.randrange(nc)] = 'goc'
             cfg = {'kinds': kinds, 'pre': rng.random() < 0.35, 'stale': rng.random() < 0.1}
+            cfg['corrupt'] = not cfg['pre'] and rng.random() < 0.15
             style = rng.random()
             state = {'last': None}
 
@@ -567,7 +581,7 @@ def run(ctx, search=False):
                     return state['last']
                 state['last'] = rng.choice(en)
                 return state['last']
-            tr = Exec(root, cfg['kinds'], cfg['pre'], cfg['stale']).run(chooser)
+            tr = Exec(root, cfg['kinds'], cfg['pre'], cfg['stale'], cfg.get('corrupt', False)).run(chooser)
             batch.append((cfg, [s[0] for s in tr['steps']], tr))
             flush()
         flush(True)
